@@ -67,7 +67,12 @@ partial def linSearch (calls : Array CCall) (final : Option KV) (done : Nat) (kv
       let c := calls[i]!
       let (kv', res, _) := step Cfg.std kv concCaller c.op true true
       if res == c.res then linSearch calls final (done ||| (2 ^ i)) kv' acc.2.1 (acc.2.2 + 1)
-      else (false, acc.2.1, acc.2.2 + 1)) (false, seen, nodes)
+      else
+        -- a call that reported an internal error: its save may have failed (the harness takes the
+        -- state directory away now and then); the specification then leaves the state unchanged
+        let (kvF, resF, _) := step Cfg.std kv concCaller c.op true false
+        if c.res == .other && resF == c.res then linSearch calls final (done ||| (2 ^ i)) kvF acc.2.1 (acc.2.2 + 1)
+        else (false, acc.2.1, acc.2.2 + 1)) (false, seen, nodes)
 
 structure ConcRun where
   cases : Nat := 0
